@@ -14,6 +14,9 @@ use std::sync::atomic::Ordering;
 
 #[cfg(target_pointer_width = "32")]
 pub use portable_atomic::AtomicU64;
+#[cfg(metrics_verif)]
+pub use crate::__verif::sync::atomic::AtomicU64;
+#[cfg(not(metrics_verif))]
 #[cfg(not(target_pointer_width = "32"))]
 pub use std::sync::atomic::AtomicU64;
 
